@@ -162,12 +162,12 @@ func (f *FnEnc) execInstr(ins ssa.Instruction) bool {
 			var p Term
 			if fp, ok := f.val(v.X).(FieldPtr); ok {
 				p = e.subRef(fp.S, fp.Field, fp.Ref)
-				f.setTaint("element address of array field")
+				f.noteArrView(arr.Elem())
 			} else {
 				p = f.term(v.X)
 				f.safety("nil", tNot(tEq(p, tInt(0))), v.Pos(), "")
 				if !f.isLocalElemwiseArray(v.X) {
-					f.setTaint("element address of non-local array")
+					f.noteArrView(arr.Elem())
 				}
 			}
 			f.safety("index", tAnd(tLe(tInt(0), idx), tLt(idx, tInt(arr.Len()))), v.Pos(), "")
@@ -220,7 +220,7 @@ func (f *FnEnc) execInstr(ins ssa.Instruction) bool {
 			val = e.funcRef(c.Fn)
 		}
 		if _, ok := val.(FieldPtr); ok {
-			e.unsup("address of scalar field stored to memory")
+			e.hazard("address of scalar field stored to memory")
 		}
 		switch a := f.val(v.Addr).(type) {
 		case FieldPtr:
@@ -230,6 +230,11 @@ func (f *FnEnc) execInstr(ins ssa.Instruction) bool {
 			t := derefType(v.Addr.Type())
 			if e.isBigInt(t) {
 				e.unsup("big.Int struct copy")
+			}
+			if f.viewElem[typeKey(t.Underlying())] {
+				if _, isAlloc := v.Addr.(*ssa.Alloc); !isAlloc {
+					f.setTaint("store to a " + t.String() + " cell while a non-local array of that element type is viewed elementwise")
+				}
 			}
 			e.storeAt(f.st, a, t, val)
 		default:
@@ -587,12 +592,12 @@ func (f *FnEnc) execSlice(v *ssa.Slice) {
 		switch a := f.val(v.X).(type) {
 		case FieldPtr:
 			p = e.subRef(a.S, a.Field, a.Ref)
-			f.arrViews = append(f.arrViews, p.S)
+			f.noteArrView(arr.Elem())
 		case Term:
 			p = a
 			f.safety("nil", tNot(tEq(p, tInt(0))), v.Pos(), "")
 			if !f.isLocalElemwiseArray(v.X) {
-				f.arrViews = append(f.arrViews, p.S)
+				f.noteArrView(arr.Elem())
 			}
 		}
 		f.safety("slice", tAnd(tLe(tInt(0), lo), tLe(lo, hi), tLe(hi, max), tLe(max, n)), v.Pos(), "")
@@ -934,7 +939,11 @@ func (f *FnEnc) binop(op token.Token, x, y Val, xt, yt, rt types.Type, pos token
 		}
 	}
 	// uninterpreted bit operation (sound, incomplete)
-	fn := fmt.Sprintf("|bitop %s %s|", op.String(), typeKey(rt.Underlying()))
+	opName := map[token.Token]string{token.AND: "and", token.OR: "or", token.XOR: "xor", token.SHL: "shl", token.SHR: "shr", token.AND_NOT: "andnot"}[op]
+	if opName == "" {
+		opName = fmt.Sprintf("op%d", int(op))
+	}
+	fn := fmt.Sprintf("|bitop %s %s|", opName, typeKey(rt.Underlying()))
 	e.declFun(fn, []Sort{SInt, SInt}, SInt)
 	r := e.define("bitop", app(SInt, fn, a, b))
 	e.fact(e.typingFact(rt, r, Term{}))
